@@ -41,6 +41,27 @@ def task(i, d, mode, how, tag, payload=None):
     open(os.path.join(d, "pid_%s_%d_%d" % (tag, i, pid)), "w").close()
     if mode == "self" :
         die(how)
+    if mode in ("child_block", "nested_block"):
+        # this worker has child processes of its own (a helper subprocess / the workers of a nested loky call) while another one dies
+        if mode == "child_block":
+            import subprocess
+            subprocess.Popen([sys.executable, "-c", "import time; time.sleep(30)", d + "/"], stdin=subprocess.DEVNULL)
+            open(os.path.join(d, "haschild_%d" % pid), "w").close()
+            t0 = time.time()
+            while time.time() - t0 < 30: time.sleep(0.01)
+        else:
+            from joblib import Parallel, delayed
+            Parallel(n_jobs=2, backend="loky")(delayed(task)(j, d, "inner_block", how, tag + "i") for j in range(2))
+        return (tag, i, pid)
+    if mode == "inner_block":
+        open(os.path.join(d, "haschild_%d" % pid), "w").close()
+        t0 = time.time()
+        while time.time() - t0 < 30: time.sleep(0.01)
+    if mode == "self_when_children":
+        t0 = time.time()
+        while time.time() - t0 < 20 and not any(f.startswith("haschild_") for f in os.listdir(d)): time.sleep(0.01)
+        time.sleep(0.1)
+        die(how)
     if mode == "block":
         open(os.path.join(d, "blocked_%d" % pid), "w").close()
         t0 = time.time()
@@ -87,6 +108,18 @@ def main():
     d = sc["dir"]; os.makedirs(d, exist_ok=True)
     nj = sc.get("n_jobs", 2); how = sc["signal"]; stage = sc["stage"]
     out = []; killed = []
+    if sc.get("sigchld") == "ign":
+        # the application does not want zombies: children are reaped by the kernel, their exit status cannot be collected
+        signal.signal(signal.SIGCHLD, signal.SIG_IGN)
+    elif sc.get("sigchld") == "reaper":
+        # another component of the process reaps every child (os.waitpid(-1)): exit statuses are stolen from multiprocessing
+        def reaper():
+            while True:
+                try:
+                    while os.waitpid(-1, os.WNOHANG)[0]: pass
+                except OSError: pass
+                time.sleep(0.001)
+        threading.Thread(target=reaper, daemon=True).start()
 
     def killer(prefix, count):
         """kill `count` workers that announced themselves with a file <prefix>_<pid>"""
@@ -100,7 +133,7 @@ def main():
                         try: os.kill(pid, sig_of(how) or signal.SIGKILL); done.add(pid); killed.append(pid)
                         except OSError: done.add(pid)
             time.sleep(0.005)
-    p = Parallel(n_jobs=nj, backend="loky", **({"pre_dispatch": 1} if stage == "cold_single" else {"pre_dispatch": "all"} if stage == "big_args" else {}))
+    p = Parallel(n_jobs=nj, backend="loky", **({"pre_dispatch": 1} if stage == "cold_single" else {"pre_dispatch": "all"} if stage == "big_args" else {"batch_size": 1} if stage in ("has_child", "has_nested") else {}))
     ctx = p if sc.get("managed") else None
     if ctx is not None: p.__enter__()
     try:
@@ -160,6 +193,8 @@ def main():
                 except OSError: pass
             time.sleep(0.3)
             items = [(i, d, "ok", how, "B") for i in range(n)]
+        elif stage in ("has_child", "has_nested"):
+            items = [(0, d, "child_block" if stage == "has_child" else "nested_block", how, "B"), (1, d, "self_when_children", how, "B")] + [(i, d, "ok", how, "B") for i in range(2, n)]
         elif stage == "cold_single":
             items = [(0, d, "block", how, "B")]
             threading.Thread(target=killer, args=("blocked", 1), daemon=True).start()
